@@ -26,6 +26,17 @@ fn main() {
                 let pushes: Vec<serde_json::Value> = input["pushes"].as_array().cloned().unwrap_or_default();
                 return rdata::optbuild::observe_optbuild(&pushes);
             }
+            Some("ctor") => {
+                let fields: Vec<serde_json::Value> = input["fields"].as_array().cloned().unwrap_or_default();
+                return rdata::ctor::observe_ctor(input["rtype"].as_u64().unwrap_or(0) as u16, &fields,
+                                                 input["strictOpts"].as_bool().unwrap_or(false));
+            }
+            Some("ctorlong") => {
+                let fields: Vec<serde_json::Value> = input["fields"].as_array().cloned().unwrap_or_default();
+                return rdata::ctor::observe_ctor_long(input["rtype"].as_u64().unwrap_or(0) as u16, &fields,
+                    input["n"].as_u64().unwrap_or(0) as usize, input["b"].as_u64().unwrap_or(0) as u8,
+                    input["checked"].as_bool().unwrap_or(false));
+            }
             Some("alpn") => {
                 let ids: Vec<Vec<u8>> = input["ids"].as_array().unwrap().iter().map(bytes_of).collect();
                 return rdata::observe_alpn(&ids);
